@@ -1737,6 +1737,13 @@ impl Evaluator {
             SchemeType::BFV | SchemeType::BGV => 
                 panic!("[Invalid argument] Rescale is only supported for CKKS scheme"),
             SchemeType::CKKS => {
+                let target_context_data = self.context.get_context_data(parms_id);
+                if target_context_data.is_none() {
+                    panic!("[Invalid argument] parms_id is not valid for encryption parameters");
+                }
+                if self.get_context_data(encrypted.parms_id()).chain_index() < target_context_data.unwrap().chain_index() {
+                    panic!("[Invalid argument] Cannot rescale to a higher level");
+                }
                 *destination = encrypted.clone();
                 while destination.parms_id() != parms_id {
                     let cloned = destination.clone();
